@@ -57,7 +57,7 @@ def render_opts(atoms, seps, rot):
     return out
 
 
-def render_doctest(comment, place, rot):
+def render_doctest(comment, place, rot, nforms=2):
     """-> (docstring text, text handed to Directive.extract, index of the statement the directive stands at)"""
     if place == 'own':
         return '>>> %s\n>>> x = p(1)\n>>> y = p(2)\n' % comment, comment
@@ -67,6 +67,17 @@ def render_doctest(comment, place, rot):
         forms = ['>>> x = p(1,\n...       None)  %s\n>>> y = p(2)\n' % comment, '>>> x = p(1,  %s\n...       None)\n>>> y = p(2)\n' % comment]
         text = forms[rot % 2]
         src = '\n'.join(l[4:] for l in text.split('\n')[:2])
+        return text, src
+    if place == 'afterblank':
+        # the statement holds an EMPTY source line (a bare '...' line) and the comment stands on a later line of it
+        forms = ['>>> for _i in [0]:\n...     x = p(1)\n...\n...     z = 0  %s\n>>> y = p(2)\n' % comment,
+                 ">>> x = p(1, len('''a\n...\n... b'''))  %s\n>>> y = p(2)\n" % comment,
+                 '>>> if True:\n...\n...     x = p(1)  %s\n>>> y = p(2)\n' % comment]
+        # (the third form - a bare line directly under the header - is not collected at all, finding F25: used where the standard
+        # module is the judge, C20, only)
+        text = forms[rot % nforms]
+        n = [4, 3, 3][rot % nforms]
+        src = '\n'.join(l[4:] for l in text.split('\n')[:n])
         return text, src
     if place == 'instring':
         forms = [">>> s = '%s'\n>>> x = p(1)\n>>> y = p(2)\n" % comment, '>>> s = """\n... %s\n... """\n>>> x = p(1)\n>>> y = p(2)\n' % comment]
@@ -203,3 +214,111 @@ def directive_phase(out, tier):
             raise common.MachineryError('deviation %s of Directive.tla violates no invariant: the check would be vacuous' % dev)
         devs[dev] = res.violated
     out.extra.setdefault('deviations_rejected', {}).update(devs)
+
+
+# ---------------------------------------------------------------------------
+# C20: option comments of the standard doctest module, the standard module itself as the judge
+
+def _one_std(raw):
+    """the doctest of a Directive.tla case (standard prefix, inline placement) under the standard module and under xdoctest: the same
+    statements must be executed (texts the standard module rejects or fails are discarded)"""
+    import doctest
+    from xdoctest import core
+    from . import runlib
+    atoms, seps, pfx, place, recognised, inline, ds, err, st, runs_after = tlaval.parse_value(raw)
+    atoms = [dict(a) for a in atoms]
+    for a in atoms:
+        a['args'] = list(a['args'])
+    rot = (zlib.crc32(raw.encode()) + _J['seed']) % 100003
+    comment = '# ' + pfx + render_opts(atoms, list(seps), rot)
+    text, _ = render_doctest(comment, place, rot, nforms=3)
+    info = {'key': (comment, place, rot % 3)}
+    T_std = []
+    try:
+        test = doctest.DocTestParser().get_doctest(text, runlib.make_namespace(T_std), 'c20dir', '<c20dir>', 0)
+        old = sys.stdout
+        try:
+            res = doctest.DocTestRunner(verbose=False, optionflags=0).run(test, out=lambda s: None, clear_globs=False)
+        finally:
+            sys.stdout = old
+    except ValueError:
+        info['excluded'] = 'the standard module cannot parse the text'
+        return info
+    if res.failed:
+        info['excluded'] = 'the standard module rejects the text'
+        return info
+    exp_T = ([1] if runs_after else []) + [2]
+    if T_std != exp_T:
+        raise common.MachineryError('the standard module executes %r, the specification says %r for\n%s' % (T_std, exp_T, text))
+    T = []
+    bad = []
+    with warnings.catch_warnings():
+        warnings.simplefilter('ignore')
+        exs = list(core.parse_docstr_examples(text, callname='c20dir', style='freeform'))
+    if len(exs) != 1:
+        # (finding F25: a bare '...' line directly under the header of a compound statement - the third form of the placement)
+        f25 = place == 'afterblank' and rot % 3 == 2
+        bad.append(('collected_bare_line_directly_under_a_compound_header' if f25 else 'collected', 'one doctest', len(exs)))
+    else:
+        e = exs[0]
+        e.mode = 'native'
+        e.config['colored'] = False
+        e.global_namespace.update(runlib.make_namespace(T))
+        old = sys.stdout
+        sys.stdout = io.StringIO()
+        try:
+            s = e.run(verbose=0, on_error='return')
+        finally:
+            sys.stdout = old
+        if s['failed']:
+            bad.append(('passes_like_stdlib', 'passed', repr(s['exc_info'][1])[:200]))
+        elif T != T_std:
+            bad.append(('same_examples_executed', T_std, T))
+    if bad:
+        info.update(bad=[(f, repr(a), repr(b)) for f, a, b in bad], text=text, comment=comment, place=place)
+    return info
+
+
+def std_phase(out, tier):
+    """Directive.tla over the standard prefix, the inline placements (behind the statement, on a continuation line, behind an empty
+    source line) and the options both modules know; every case under the standard module and under xdoctest"""
+    _J['seed'] = common.seed()
+    _J['world'] = world()
+    res = common.run_tlc('MC_Directive', cfg('Std_Atoms', 'All_Seps', 'Std_Prefix', 'Std_Places', 2), printed=True, timeout=900)
+    common.tlc_must_pass(res, 'Directive standard options')
+    out.add_tlc(res, 'exhaustive:Directive/standard option comments<=2')
+    if res.violated:
+        raise common.MachineryError('spec-level invariant %s violated on the unchanged spec (Directive, standard options):\n%s' % (res.violated, res.stdout[-3000:]))
+    raws = sorted(set(common.iter_printed(res)))
+    if not raws:
+        raise common.MachineryError('Directive standard options: TLC printed no case')
+    # every case under three seeds: the statement forms of a placement rotate with the seed
+    jobs = []
+    for k in range(3):
+        jobs += [(r, k) for r in raws]
+    infos = common.parallel_map(_one_std_k, jobs, chunk=40)
+    n_ex = 0
+    for info in infos:
+        out.traces += 1
+        out.evaluations += 1
+        if 'excluded' in info:
+            n_ex += 1
+            continue
+        out.count_nontrivial(info['key'])
+        if 'bad' in info:
+            out.violation({'kind': 'std_option_comment', 'fields': ','.join(sorted({b[0] for b in info['bad']}))},
+                          {'doctest': info['text'], 'comment': info['comment'], 'placement': info['place'], 'disagreements': info['bad']})
+    out.extra['std_option_comment_cases'] = len(infos) - n_ex
+    out.extra['std_option_comment_discarded'] = n_ex
+    if len(infos) - n_ex < len(infos) // 10:
+        raise common.MachineryError('standard option comments: the standard module discards nearly every text (%d of %d)' % (n_ex, len(infos)))
+
+
+def _one_std_k(job):
+    raw, k = job
+    old = _J['seed']
+    _J['seed'] = old + k
+    try:
+        return _one_std(raw)
+    finally:
+        _J['seed'] = old
